@@ -396,6 +396,36 @@ func RunWorker(t *testing.T) {
 	out := &WorkerOut{Prop: prop, Worker: worker, Stats: st, Known: map[string]string{}}
 	start := time.Now()
 	maxViol := 3
+	// When the race detector reports during a bubble, the testing package fails the
+	// bubble's T and unwinds this goroutine (runtime.Goexit). Deferred functions still
+	// run: record the run in progress as a data-race violation and write the results.
+	finished := false
+	var curTape *verifsim.Tape
+	curRun, curID := 0, ""
+	raceBefore := raceLogSize()
+	defer func() {
+		if finished {
+			return
+		}
+		st.WallS = time.Since(start).Seconds()
+		if after := raceLogSize(); after > raceBefore && curTape != nil {
+			st.Runs++
+			st.Violations++
+			rf := ReplayFile{Property: prop, Seed: seed, Run: curRun, Tier: tier, Class: "data-race", Key: "data-race",
+				Detail: "the race detector reported during this run:\n" + trunc(raceLogTail(after-raceBefore), 6000),
+				Tape: append([]uint32(nil), curTape.Recorded()...), TapeLen0: len(curTape.Recorded()), Repeat: 4, TreeHash: os.Getenv("VERIF_TREE_HASH"),
+				Note: "the testing package aborted the worker when the race was reported; the tape is the prefix recorded until then, replay regenerates the rest from the seed", FromSeed: true}
+			path := fmt.Sprintf("%s/%s.json", replayDir, curID)
+			writeJSON(path, rf)
+			out.Violations = append(out.Violations, path)
+			fmt.Printf("VIOLATION property=%s replay=%s\n  class=data-race\n", prop, path)
+		} else {
+			out.Infra = "worker goroutine unwound during run " + curID + " without a race report"
+		}
+		if outPath != "" {
+			writeJSON(outPath, out)
+		}
+	}()
 	for i := 0; i < maxRuns; i++ {
 		if time.Since(start) > budget {
 			break
@@ -406,6 +436,8 @@ func RunWorker(t *testing.T) {
 		}
 		tape := verifsim.NewTape(runSeed(seed, prop, run), 1<<16)
 		id := fmt.Sprintf("%s-%d-%d", prop, seed, run)
+		curTape, curRun, curID = tape, run, id
+		raceBefore = raceLogSize()
 		v, rc := execTape(t, sc, tape, st, prop, tier, id)
 		st.Runs++
 		if rc.nontrivial {
@@ -452,6 +484,7 @@ func RunWorker(t *testing.T) {
 			break
 		}
 	}
+	finished = true
 	st.WallS = time.Since(start).Seconds()
 	if outPath != "" {
 		writeJSON(outPath, out)
@@ -494,6 +527,13 @@ func RunReplay(t *testing.T, path string) {
 	if reps < 1 {
 		reps = 1
 	}
+	raceBefore := raceLogSize()
+	done := false
+	defer func() {
+		if !done && raceLogSize() > raceBefore {
+			fmt.Printf("VIOLATION property=%s replay=%s\n  reproduced: class=data-race\n%s\n", rf.Property, path, trunc(raceLogTail(raceLogSize()-raceBefore), 3000))
+		}
+	}()
 	for i := 0; i < reps; i++ {
 		tape := verifsim.ReplayTape(append([]uint32(nil), rf.Tape...))
 		if rf.FromSeed {
@@ -505,9 +545,11 @@ func RunReplay(t *testing.T, path string) {
 			if v.Class != rf.Class {
 				fmt.Printf("  note: recorded class was %s\n", rf.Class)
 			}
+			done = true
 			t.Fail()
 			return
 		}
 	}
+	done = true
 	fmt.Printf("replay of %s: no violation in %d attempt(s)\n", path, reps)
 }
